@@ -213,6 +213,8 @@ def pstep (s : PSys) : POp → Option PSys
 def pout (s : PSys) : POp → List Nat
   | .readBytes x n => match (s.get x).recv.readBytes s.m n with | some (_, _, d) => d | none => []
   | .peek x n => match (s.get x).recv.peekBytes s.m n with | some (_, d) => d | none => []
+  | .readString x n => match (s.get x).recv.readString s.m n with | some (_, _, d) => d | none => []
+  | .readInto x n => match (s.get x).recv.readInto s.m n with | some (_, _, d) => d | none => []
   | _ => []
 
 def prun : PSys → List POp → Option PSys
